@@ -83,11 +83,6 @@ Definition multi_visible (s : state) (readTs : N) (pw : list rec) (u : bytes) : 
   let bk := sbase u in
   Nat.leb 2 (List.length (filter (fun r => bytes_eqb (r_key r) bk) (txn_stream current s false readTs pw PRewind))).
 
-(** class 4 (C06-F10b): pending writes whose user keys are byte-prefixes of one
-    another are ordered with bytes.Compare on the encoded key. *)
-Definition prefix_pair (pw : list rec) : bool :=
-  existsb (fun a => existsb (fun b => negb (bytes_eqb (r_key a) (r_key b)) && is_prefix (r_key a) (r_key b)) pw) pw.
-
 (** * Per-probe verdicts: (mismatch, violation, class) *)
 
 Definition classify_scan (s : state) (kind : N) (readTs : N) (pw : list rec) (rv allv : bool)
@@ -95,11 +90,12 @@ Definition classify_scan (s : state) (kind : N) (readTs : N) (pw : list rec) (rv
   if negb agree then 0
   else
     let bad := bad_keys (map to_sitem obs) spec in
-    if match bad with [] => false | _ => true end && all_default obs && forallb (fun u => has_dup s (sbase u)) bad then 1
+    let nonnil := match bad with [] => false | _ => true end in
+    let f9 := (kind =? 1) && rv && negb allv in
+    if nonnil && all_default obs && forallb (fun u => has_dup s (sbase u)) bad then 1
     else if (kind =? 0) && negb (db_simple s) then 2
-    else if (kind =? 1) && rv && negb allv && match bad with [] => false | _ => true end
-            && forallb (multi_visible s readTs pw) bad then 3
-    else if (kind =? 1) && prefix_pair pw && match bad with [] => true | _ => false end then 4
+    else if f9 && nonnil && all_default obs
+            && forallb (fun u => has_dup s (sbase u) || multi_visible s readTs pw u) bad then 3
     else 0.
 
 Definition probe_verdict (now : N) (s : state) (ws : list rec) (p : probe) : bool * bool * N :=
@@ -125,12 +121,13 @@ Definition probe_verdict (now : N) (s : state) (ws : list rec) (p : probe) : boo
                                        end in
       let agree := forallb (fun kv => oeq (model (fst kv)) (snd kv)) obs in
       let ok := forallb (fun kv => oeq (spec_get now ws pw readTs (fst kv)) (snd kv)) obs in
-      let bad := map fst (filter (fun kv => negb (oeq (spec_get now ws pw readTs (fst kv)) (snd kv))) obs) in
+      let badkv := filter (fun kv => negb (oeq (spec_get now ws pw readTs (fst kv)) (snd kv))) obs in
+      let empty kv := oeq (spec_get now ws pw readTs (fst kv)) (Some []) && oeq (snd kv) None in
       (negb agree, negb ok,
-       if ok then 0 else if agree && forallb (fun u => has_dup s (sbase u)) bad then 1
-       else if agree && forallb (fun kv => oeq (spec_get now ws pw readTs (fst kv)) (snd kv)
-                                           || (oeq (spec_get now ws pw readTs (fst kv)) (Some []) && oeq (snd kv) None)) obs
-       then 5 else 0)
+       if ok then 0
+       else if agree && forallb (fun kv => has_dup s (sbase (fst kv))) badkv then 1
+       else if agree && forallb (fun kv => has_dup s (sbase (fst kv)) || empty kv) badkv then 5
+       else 0)
   end.
 
 Definition check (c : case) : verdict :=
